@@ -132,17 +132,39 @@ class Exec(ExprMixin, SpecMixin, Engine):
             return [(s, SV("cls", None, ("dyn", self.cls_of(s, args[0]))))]
         if name == "bool":
             return [(s, mk_bool(self.truth(s, args[0])))]
+        if name == "next" and len(args) == 1 and args[0].kind == "ref":
+            return self.iter_next(s, args[0])
         if name == "tuple" and args and args[0].kind == "list":
             return [(s, args[0])]      # immutable snapshot: callers only read it
         if name in ("KeyError", "ValueError", "TypeError", "IndexError",
                     "AssertionError", "BTreesConflictError"):
-            return [(s, SV("excobj", None, name))]
+            return [(s, SV("excobj", list(args), name))]
         if name in CLASS_IDS and name not in self.contracts:
             return self.instantiate(s, SV("cls", None, name), args)
         q = name if name in self.contracts or name in self.sources else None
         if q:
             return self.call_qual(s, q, None, args, {})
         raise Unsupported("call of %s(%s)" % (name, ",".join(a.kind for a in args)))
+
+    def iter_next(self, s, it):
+        """next(it) on an abstract list iterator (A1): yields seq[pos] (or the
+        pair (seq[pos], vals[pos])) and advances, StopIteration at the end."""
+        seq = self.hget(s, "$it_seq", it.z)
+        vals = self.hget(s, "$it_vals", it.z)
+        pos = self.hget(s, "$it_pos", it.z)
+        pairs = self.hget(s, "$it_pairs", it.z)
+        n = self.llen(s, seq)
+        res = []
+        for s2, more in self.fork(s, z3.And(pos >= 0, pos < n), "next_more"):
+            if not more:
+                res.append((s2, exc("StopIteration")))
+                continue
+            k = SV("K", z3.Select(self.lcontent(s2, seq, "K"), pos))
+            v = SV("V", z3.Select(self.lcontent(s2, vals, "V"), pos))
+            self.hset(s2, "$it_pos", it.z, pos + 1)
+            for s3, pr in self.fork(s2, pairs, "next_pairs"):
+                res.append((s3, SV("tuple", None, [k, v]) if pr else k))
+        return res
 
     def isinst(self, s, o, c):
         cid = self.cls_of(s, o)
@@ -155,11 +177,16 @@ class Exec(ExprMixin, SpecMixin, Engine):
         if isinstance(c.x, str):
             if c.x in ("KeyError", "ValueError", "TypeError", "IndexError",
                        "AssertionError", "BTreesConflictError"):
-                return [(s, SV("excobj", None, c.x))]
+                return [(s, SV("excobj", list(args), c.x))]
             if c.x.startswith("list:"):
                 ek = c.x[5:]
                 dflt = z3.RealVal(0) if ek == "K" else z3.IntVal(0)
                 return [(s, self.new_list(s, ek, z3.K(INT, dflt), z3.IntVal(0)))]
+            if c.x == "_SetIteration" and "_SetIteration.__init__" in self.contracts:
+                r = self.new_ref(s, "_SetIteration")
+                recv = SV("ref", r, "_SetIteration")
+                outs = self.call_contract(s, self.contracts["_SetIteration.__init__"], recv, args, {})
+                return [(s2, recv if v.kind != "exc" else v) for s2, v in outs]
             if c.x == "_TreeItem":
                 r = self.new_ref(s, "_TreeItem")
                 o = SV("ref", r, "_TreeItem")
@@ -206,6 +233,8 @@ class Exec(ExprMixin, SpecMixin, Engine):
         if name == "append":
             x = self.coerce(args[0], ELEM_KIND[ek] if ek != "R" else "ref")
             self.lset(s, lst.z, ek, z3.Store(c, n, x), n + 1)
+            if ek == "K":
+                self.hset(s, "$elems", lst.z, z3.Store(self.hget(s, "$elems", lst.z), x, True))
             return [(s, NONE)]
         if name == "insert":
             i = args[0].z
@@ -215,6 +244,8 @@ class Exec(ExprMixin, SpecMixin, Engine):
             newc = z3.Lambda([j], z3.If(j < i, z3.Select(c, j),
                                         z3.If(j == i, x, z3.Select(c, j - 1))))
             self.lset(s, lst.z, ek, newc, n + 1)
+            if ek == "K":
+                self.hset(s, "$elems", lst.z, z3.Store(self.hget(s, "$elems", lst.z), x, True))
             return [(s, NONE)]
         if name == "pop":
             if not args:
@@ -459,6 +490,8 @@ class Exec(ExprMixin, SpecMixin, Engine):
                 l = self.sp(self.spec_expr(m[5:]), s, env, ctx)
                 out.append(("$len", l.z))
                 out.append(("$" + l.x, l.z))
+                if l.x == "K":
+                    out.append(("$elems", l.z))
             else:
                 objtxt, fld = m.rsplit(".", 1)
                 o = self.sp(self.spec_expr(objtxt), s, env, ctx)
